@@ -26,7 +26,36 @@ _K2_NOTE = ("Trusted: the rxvc VC generator; z3/cvc5; the spec machines in /veri
             "AutoDetachObserver clause of C01. Counter-models are replayed by a native history runner (bounded).")
 _K2_TECH = "K2 class refinement against a spec machine with the call-out discipline (invariant at every call-out), SMT-discharged"
 
+_VTS_NOTE = ("Trusted: rxvc; z3; A-time (datetime/timedelta arithmetic is exact integer arithmetic on ticks; float<->datetime "
+             "conversion is C36's business, so to_datetime/to_seconds/to_timedelta are identities here); the heapq contract (heappush "
+             "adds an entry, heappop removes a <-minimum) - PriorityQueue is verified against it and ScheduledItem's __lt__/__eq__ are "
+             "shown to make the heap order (duetime, insertion count); the non-reentrant Lock contract (re-acquiring it never returns). "
+             "User actions are opaque call-outs that may schedule and cancel: the queue view is arbitrary after each. Actions that call "
+             "advance_to/sleep/start re-entrantly are outside. Counter-models are replayed natively against a reference model of "
+             "virtual time under a watchdog (bounded).")
+
 CHECKS_K1 = {
+    "C28": {
+        "text": "Function contracts with loop invariants on the real VirtualTimeScheduler (inherited unchanged by TestScheduler and "
+                "HistoricalScheduler), ScheduledItem and PriorityQueue. The run loops of start and advance_to are cut at their "
+                "invariant: from an arbitrary state (any clock, any queue contents, numeric or datetime clock) one iteration must "
+                "invoke exactly the head of the (duetime, insertion-count)-ordered queue view, only if it is not cancelled, outside "
+                "the lock, with clock' = due if due > clock and never backwards, removing exactly that entry and re-stamping none; "
+                "the loop may be left only when disabled, drained or (advance_to) the head is later than the target, with the queue "
+                "untouched; advance_to keeps clock <= target and ends at the target; sleep runs nothing; schedule* enqueue one item "
+                "with the right due time and return its cancellation handle.",
+        "note": _VTS_NOTE,
+        "technique": "function contracts + loop invariants (one arbitrary iteration), queue view by contract, SMT; native replay vs reference model",
+    },
+    "C29": {
+        "text": "Total-correctness clauses of the same contracts: every iteration of start/advance_to that does not leave the loop "
+                "removes one entry from the queue before calling out (so any finite schedule, self-rescheduling included, drains); "
+                "no path raises, and no path re-acquires the non-reentrant scheduler lock it holds (self-deadlock), for numeric and "
+                "datetime clocks and any spinning count; the loops are left only when nothing due remains; both end with the "
+                "scheduler disabled, so a drained scheduler can be started again.",
+        "note": _VTS_NOTE + " Termination is relative to the property's own bound: finitely many actions are ever scheduled.",
+        "technique": "loop variant (one entry consumed per iteration) + no-self-deadlock and returns-normally obligations, SMT; watchdog replay",
+    },
     "C07": {
         "text": "K8 lemma over the C05 contracts. (1) Closed forms of the stage operators (take, skip, take_last, skip_last) are proved by "
                 "snoc induction over their spec machines - the machines the real handlers are proved to refine in C05 - as sequence "
